@@ -2,6 +2,7 @@ package server
 
 import (
 	"context"
+	"maps"
 	"os"
 	"path/filepath"
 	"strings"
@@ -11,6 +12,7 @@ import (
 	"go.lsp.dev/uri"
 
 	"github.com/juev/hledger-lsp/internal/analyzer"
+	"github.com/juev/hledger-lsp/internal/ast"
 	"github.com/juev/hledger-lsp/internal/cli"
 	"github.com/juev/hledger-lsp/internal/formatter"
 	"github.com/juev/hledger-lsp/internal/include"
@@ -251,7 +253,7 @@ func (s *Server) publishDiagnostics(ctx context.Context, docURI protocol.Documen
 	}
 	resolved, loadErrors := s.loader.LoadFromContent(path, content)
 
-	diagnostics := s.analyze(content)
+	diagnostics := s.analyze(content, resolved)
 
 	for _, err := range loadErrors {
 		severity := protocol.DiagnosticSeverityError
@@ -305,7 +307,7 @@ func (s *Server) publishIfCurrent(
 	})
 }
 
-func (s *Server) analyze(content string) []protocol.Diagnostic {
+func (s *Server) analyze(content string, resolved *include.ResolvedJournal) []protocol.Diagnostic {
 	journal, parseErrs := parser.Parse(content)
 
 	diagnostics := make([]protocol.Diagnostic, 0, len(parseErrs))
@@ -327,11 +329,7 @@ func (s *Server) analyze(content string) []protocol.Diagnostic {
 		})
 	}
 
-	external := analyzer.ExternalDeclarations{}
-	if s.workspace != nil {
-		external.Accounts = s.workspace.GetDeclaredAccounts()
-		external.Commodities = s.workspace.GetDeclaredCommodities()
-	}
+	external := s.externalDeclarations(resolved)
 
 	var result *analyzer.AnalysisResult
 	if external.Accounts != nil || external.Commodities != nil {
@@ -364,6 +362,43 @@ func (s *Server) analyze(content string) []protocol.Diagnostic {
 	}
 
 	return diagnostics
+}
+
+// externalDeclarations collects the accounts and commodities declared outside the document:
+// in the workspace and in the files the document itself includes (a document that is not part
+// of the workspace tree, or a server without workspace root, still sees its own includes).
+func (s *Server) externalDeclarations(resolved *include.ResolvedJournal) analyzer.ExternalDeclarations {
+	external := analyzer.ExternalDeclarations{}
+	if s.workspace != nil {
+		external.Accounts = s.workspace.GetDeclaredAccounts()
+		external.Commodities = s.workspace.GetDeclaredCommodities()
+	}
+	if resolved == nil || len(resolved.Files) == 0 {
+		return external
+	}
+
+	// the workspace hands out its cached maps: copy before adding to them
+	accounts := make(map[string]bool, len(external.Accounts))
+	maps.Copy(accounts, external.Accounts)
+	commodities := make(map[string]bool, len(external.Commodities))
+	maps.Copy(commodities, external.Commodities)
+	for _, journal := range resolved.Files {
+		for _, dir := range journal.Directives {
+			switch d := dir.(type) {
+			case ast.AccountDirective:
+				accounts[d.Account.Name] = true
+			case ast.CommodityDirective:
+				commodities[d.Commodity.Symbol] = true
+			}
+		}
+	}
+	if len(accounts) > 0 {
+		external.Accounts = accounts
+	}
+	if len(commodities) > 0 {
+		external.Commodities = commodities
+	}
+	return external
 }
 
 func (s *Server) shouldIncludeDiagnostic(code string, settings diagnosticsSettings) bool {
